@@ -59,3 +59,28 @@ Proof. reflexivity. Qed.
 Lemma gen_wiring_Strand_population_proportion_stderrs :
   wsrc_Strand_population_proportion_stderrs = Some (w_vector_of "population_proportion_stderrs").
 Proof. reflexivity. Qed.
+
+(* SecondOrderMeasures.population_proportions *)
+Lemma gen_wiring_SecondOrderMeasures_population_proportions :
+  wsrc_SecondOrderMeasures_population_proportions = Some (WCall (WGlobal "_PopulationProportions")
+      [WSelf "_dimensions"; WVar "self"; WSelf "_cube_measures"] []).
+Proof. reflexivity. Qed.
+
+(* SecondOrderMeasures.population_std_err *)
+Lemma gen_wiring_SecondOrderMeasures_population_std_err :
+  wsrc_SecondOrderMeasures_population_std_err = Some (WCall (WGlobal "_PopulationStandardError")
+      [WSelf "_dimensions"; WVar "self"; WSelf "_cube_measures"] []).
+Proof. reflexivity. Qed.
+
+(* StripeMeasures.population_proportions *)
+Lemma gen_wiring_StripeMeasures_population_proportions :
+  wsrc_StripeMeasures_population_proportions = Some (WCall (WGlobal "_PopulationProportions") [WSelf
+      "_rows_dimension"; WVar "self"; WSelf "_cube_measures"] []).
+Proof. reflexivity. Qed.
+
+(* StripeMeasures.population_proportion_stderrs *)
+Lemma gen_wiring_StripeMeasures_population_proportion_stderrs :
+  wsrc_StripeMeasures_population_proportion_stderrs = Some (WCall (WGlobal
+      "_PopulationProportionStderrs") [WSelf "_rows_dimension"; WVar "self"; WSelf "_cube_measures"]
+      []).
+Proof. reflexivity. Qed.
